@@ -26,6 +26,7 @@ import (
 	"github.com/nspcc-dev/neo-go/pkg/smartcontract"
 	"github.com/nspcc-dev/neo-go/pkg/smartcontract/callflag"
 	"github.com/nspcc-dev/neo-go/pkg/smartcontract/manifest"
+	"github.com/nspcc-dev/neo-go/pkg/smartcontract/nef"
 	"github.com/nspcc-dev/neo-go/pkg/vm"
 	"github.com/nspcc-dev/neo-go/pkg/vm/stackitem"
 	"github.com/nspcc-dev/neo-go/pkg/vm/vmstate"
@@ -88,6 +89,62 @@ type Fn struct {
 type Prog struct {
 	Prelude string `json:"prelude"` // shared declarations (types, globals, helpers)
 	Fns     []Fn   `json:"fns"`
+	// Extra holds further source files of the program (path relative to the
+	// program directory -> content): "lib/x.go" is package x/lib of the same
+	// module, "inl/h/h.go" is package h of a nested module whose path starts with
+	// the prefix neo-go's compiler inlines calls into (inlinePrefix), "b.go" is a
+	// second file of package main (the contract is then compiled as a directory).
+	Extra map[string]string `json:"extra,omitempty"`
+}
+
+// inlineModule is the module path of the nested module "inl": canInline() of the
+// compiler is true for every function of a package below
+// github.com/nspcc-dev/neo-go/pkg/compiler/testdata/inline*, so the helpers of
+// this module are inlined at every call site, while the reference toolchain
+// treats them as ordinary functions of an ordinary package.
+const inlineModule = "github.com/nspcc-dev/neo-go/pkg/compiler/testdata/inlinec14"
+
+// multiFile: package main has more files than prog.go.
+func (p *Prog) multiFile() bool {
+	for k := range p.Extra {
+		if !strings.Contains(k, "/") {
+			return true
+		}
+	}
+	return false
+}
+
+// writeTree writes go.mod, prog.go and the extra files of p into dir.
+func writeTree(dir string, p *Prog) error {
+	mod := "module x\n\ngo 1.25\n"
+	inl := false
+	for k := range p.Extra {
+		if strings.HasPrefix(k, "inl/") {
+			inl = true
+		}
+	}
+	if inl {
+		mod += "\nrequire " + inlineModule + " v0.0.0\n\nreplace " + inlineModule + " => ./inl\n"
+		if err := os.MkdirAll(filepath.Join(dir, "inl"), 0o755); err != nil {
+			return err
+		}
+		if err := os.WriteFile(filepath.Join(dir, "inl", "go.mod"), []byte("module "+inlineModule+"\n\ngo 1.25\n"), 0o644); err != nil {
+			return err
+		}
+	}
+	if err := os.WriteFile(filepath.Join(dir, "go.mod"), []byte(mod), 0o644); err != nil {
+		return err
+	}
+	for k, v := range p.Extra {
+		f := filepath.Join(dir, filepath.FromSlash(k))
+		if err := os.MkdirAll(filepath.Dir(f), 0o755); err != nil {
+			return err
+		}
+		if err := os.WriteFile(f, []byte(v), 0o644); err != nil {
+			return err
+		}
+	}
+	return os.WriteFile(filepath.Join(dir, "prog.go"), []byte(p.Source()), 0o644)
 }
 
 func (p *Prog) Source() string {
@@ -336,18 +393,21 @@ func callExpr(f *Fn, args []string) string {
 // goSide builds and runs p in dir and returns outcome[fn][tuple].
 func goSide(dir string, p *Prog) ([][]string, error) {
 	setupEnv()
-	if err := os.WriteFile(filepath.Join(dir, "go.mod"), []byte("module x\n\ngo 1.25\n"), 0o644); err != nil {
+	if err := writeTree(dir, p); err != nil {
 		return nil, err
 	}
-	if err := os.WriteFile(filepath.Join(dir, "prog.go"), []byte(p.Source()), 0o644); err != nil {
-		return nil, err
+	drv, buildArgs := driver(p), []string{"build", "-gcflags=-N -l", "-o", "prog.bin", "."}
+	if p.multiFile() {
+		// the contract is compiled as a directory: the driver must not be part of it
+		drv = "//go:build c14ref\n\n" + drv
+		buildArgs = []string{"build", "-tags", "c14ref", "-gcflags=-N -l", "-o", "prog.bin", "."}
 	}
-	if err := os.WriteFile(filepath.Join(dir, "main.go"), []byte(driver(p)), 0o644); err != nil {
+	if err := os.WriteFile(filepath.Join(dir, "main.go"), []byte(drv), 0o644); err != nil {
 		return nil, err
 	}
 	ctx, cancel := context.WithTimeout(context.Background(), 5*time.Minute)
 	defer cancel()
-	cmd := exec.CommandContext(ctx, "go", "build", "-gcflags=-N -l", "-o", "prog.bin", ".")
+	cmd := exec.CommandContext(ctx, "go", buildArgs...)
 	cmd.Dir = dir
 	cmd.Env = append(os.Environ(), "GOMAXPROCS=4") // many builds run side by side
 	tb := time.Now()
@@ -441,10 +501,8 @@ type compiled struct {
 
 func neoCompile(dir string, p *Prog) (*compiled, error) {
 	setupEnv()
-	if _, err := os.Stat(filepath.Join(dir, "go.mod")); err != nil {
-		if err := os.WriteFile(filepath.Join(dir, "go.mod"), []byte("module x\n\ngo 1.25\n"), 0o644); err != nil {
-			return nil, err
-		}
+	if err := writeTree(dir, p); err != nil {
+		return nil, err
 	}
 	var (
 		nf  []byte
@@ -457,7 +515,14 @@ func neoCompile(dir string, p *Prog) (*compiled, error) {
 				err = fmt.Errorf("compiler panic: %v", r)
 			}
 		}()
-		f, d, e := compiler.CompileWithOptions(filepath.Join(dir, "prog.go"), strings.NewReader(p.Source()), &compiler.Options{Name: "c14"})
+		var f *nef.File
+		var d *compiler.DebugInfo
+		var e error
+		if p.multiFile() {
+			f, d, e = compiler.CompileWithOptions(dir, nil, &compiler.Options{Name: "c14"})
+		} else {
+			f, d, e = compiler.CompileWithOptions(filepath.Join(dir, "prog.go"), strings.NewReader(p.Source()), &compiler.Options{Name: "c14"})
+		}
 		if e != nil {
 			err = e
 			return
@@ -474,7 +539,8 @@ func neoCompile(dir string, p *Prog) (*compiled, error) {
 			c.initOff = int(m.Range.Start)
 		}
 		if m.IsFunction || m.ID == manifest.MethodInit {
-			if _, dup := c.byID[m.ID]; !dup {
+			// a function of an imported package may have the name of one of package main: main's wins
+			if old, dup := c.byID[m.ID]; !dup || (old.Name.Namespace != di.MainPkg && m.Name.Namespace == di.MainPkg) {
 				c.byID[m.ID] = m
 			}
 		}
